@@ -2,7 +2,7 @@
     Statements only; sweeps and proofs in Theory/ArrowTheory.v and Theory/CornerTheory.v (re-run on
     regenerated tables). *)
 Require Import SB.Model.Base SB.Model.Geom SB.Model.Fragment SB.Model.Property SB.Theory.ArrowTheory SB.Theory.CornerTheory
-  SB.Gen.AsciiMap SB.Gen.UnicodeMap SB.Model.FragBuf SB.Model.Endorse SB.Theory.ArrowSweep SB.Theory.BulletSweep SB.Theory.ArrowContext SB.Theory.BoxSweep SB.Theory.RoundedSweep
+  SB.Gen.AsciiMap SB.Gen.UnicodeMap SB.Model.FragBuf SB.Model.Endorse SB.Theory.ArrowDefs SB.Theory.ArrowSweep SB.Theory.BulletSweep SB.Theory.BulletMid SB.Theory.ArrowContext SB.Theory.BoxSweep SB.Theory.RoundedSweep
   SB.Theory.ShiftTheory SB.Theory.ShiftFrag SB.Theory.SepTheory SB.Theory.SepOrder.
 
 (** Arrowheads.  Every table entry that fires when a line arrives from a neighbour (its
@@ -81,6 +81,13 @@ Proof. exact arrow_recognised_in_context. Qed.
 Theorem C14_bullet_at_the_end_of_a_run :
   forall k L, In k bcases -> (1 <= L <= 40)%nat -> bullet_chk k L = true.
 Proof. exact bullet_recognised. Qed.
+(** ... and in the middle of a run: L1 line characters, the bullet, L2 line characters (1..8 each), to the right, downwards or
+    down-right ([mcases]).  [mid_chk]: no group, no text; the first fragment is a solid marked line from the start of the run
+    to the centre of the bullet's cell, marked there with the bullet's kind; every other fragment is an unmarked solid line
+    on the axis of the run between its start and its end. *)
+Theorem C14_bullet_in_the_middle_of_a_run :
+  forall k L1 L2, In k mcases -> (1 <= L1 <= 8)%nat -> (1 <= L2 <= 8)%nat -> mid_chk k L1 L2 = true.
+Proof. exact bullet_mid_line. Qed.
 Example C14_cases_nonvacuous : List.length acases = 15%nat /\ List.length bcases = 24%nat.
 Proof. split; reflexivity. Qed.
 
